@@ -1,6 +1,6 @@
 """C06 - non-mutation of arguments (MUT), patch pairing (PATCH), wrapper tables, broadcast protocol, handled functions."""
 import ast, re
-from ..core import RuleResult, Finding, AnalysisError, dotted, src, norm_construct, ClassInfo
+from ..core import RuleResult, Finding, AnalysisError, dotted, src, norm_construct, ClassInfo, guarded, guarded_list
 from ..expr import inline_straight, returns_of, dump, subst, rv
 from .. import paths, effects
 
@@ -40,6 +40,7 @@ def is_public_api(repo, f):
     return True
 
 
+@guarded
 def rule_mut(repo, tier):
     res = RuleResult('C06.MUT', 'no public API function without a trailing underscore mutates storage reachable from a tensor '
                      'argument, along any resolved call chain (alias/effect analysis with interprocedural summaries)', floor=150)
@@ -122,6 +123,7 @@ def _fixture_repo(repo, text):
 
 # ---------------------------------------------------------------- PATCH: retain_ltype restores what it patches
 
+@guarded
 def rule_patch(repo, tier):
     res = RuleResult('C06.PATCH', 'retain_ltype: every setattr(module, name, wrapper) executed in the try body is matched by a restoring '
                      'setattr(module, name, original) over the same collection in a finally clause that every exit of the try passes '
@@ -255,6 +257,7 @@ def protocol_signature(repo, f):
     return sig
 
 
+@guarded
 def rule_bcast(repo, tier):
     res = RuleResult('C06.BCAST', 'each binary Type method follows the flatten-broadcast-unflatten protocol: operands pass through '
                      'broadcast_inputs, the family\'s own autograd op is applied to its result, the output is viewed to out_shape + (dim,) '
@@ -312,6 +315,7 @@ SHAPE_ONLY = ['__getitem__', 'view', 'reshape', 'permute', 'cat', 'stack', 'spli
               'squeeze', 'unsqueeze', 'index_select', 'transpose', 'chunk', 'unbind', 'repeat', 'narrow', 'select']
 
 
+@guarded
 def rule_wrap(repo, tier):
     res = RuleResult('C06.WRAP', 'wrapper tables: X = partial(LieTensor, ltype=X_type); randn_X -> X_type.randn; identity_X -> X_type.identity; '
                      'Exp..Jr wrappers call the same-named method; shape-only torch functions are members of HANDLED_FUNCTIONS and '
@@ -389,6 +393,7 @@ CTORS = {'torch.zeros', 'torch.ones', 'torch.eye', 'torch.tensor', 'torch.empty'
          'torch.linspace'}
 
 
+@guarded
 def rule_dtype(repo, tier):
     res = RuleResult('C06.DTYPE', 'every tensor constructed inside pypose.lietensor.operation takes both dtype and device from an input tensor '
                      '(or is a *_like / forwards **kwargs): results keep the documented dtype and device; a float32 default silently rounds '
